@@ -167,7 +167,9 @@ def _factors(item):
     import functools
 
     cands = [t for t in nodes if t in functions and shadow.is_scalar_rule(functions[t]) and UNIT_RE.match(t) and not UNIT_RE.match(t).group("agg")
-             and functions[t].__annotations__.get("return") is float]
+             and functions[t].__annotations__.get("return") is float
+             # functools.wraps copies the rounding key too; a new name marked for rounding without a spec is rightly refused (C10)
+             and "params_key_for_rounding" not in (getattr(functions[t], "__info__", None) or {})]
     for t in [cands[i] for i in rng.choice(len(cands), min(3, len(cands)), replace=False)] if cands else []:
         m = UNIT_RE.match(t)
         u = m.group("u")
